@@ -1,5 +1,6 @@
 import DefraModel.Crdt.Model
 import DefraModel.Crdt.Versioned
+import DefraModel.Crdt.WfCheck
 open Defra Defra.Crdt
 
 namespace Driver.Crdt
@@ -9,6 +10,9 @@ structure World where
   reps : Array Replica := #[]
   /-- ghost: per replica, the composites (and collection blocks) merged so far -/
   merged : Array (List Nat) := #[]
+  /-- `wfCheck blocks`, cached for the store of `wfLen` blocks -/
+  wfLen : Nat := 0
+  wfRes : Bool := true
   deriving Inhabited
 
 def parseLabel (s : String) : Option Nat := (s.drop 1).toNat?
@@ -151,9 +155,12 @@ def step (w : World) (toks : List String) : World × String :=
       match w.blocks.get? id with
       | none => (w, "unknown-block")
       | some b =>
+        -- the hypotheses of the end-to-end merge theorem (Props/C02), evaluated on this store and these heads
+        let w := if w.wfLen == w.blocks.length then w else { w with wfLen := w.blocks.length, wfRes := wfCheck w.blocks }
+        let hyp := w.wfRes && b.kind == .comp && headsCheck w.blocks ((w.reps[r]!).doc b.doc).heads
         let rep' := mergeDoc (cx w) (w.reps[r]!) b
         let w' := { w with reps := w.reps.set! r rep', merged := w.merged.set! r (closeUnder w.blocks id (w.merged[r]!)) }
-        (w', "ok " ++ viewLine w' r doc)
+        (w', "ok " ++ viewLine w' r doc ++ (if hyp then "" else " MERGE-THEOREM-HYPOTHESIS-FALSE"))
     | _, _ => (w, "bad-op")
   | ["delivercol", r, l] =>
     match r.toNat?, parseLabel l with
